@@ -48,8 +48,10 @@ def c_arbiter(n):
     h.functions = ["litex.soc.interconnect.wishbone.Arbiter.__init__", "migen.genlib.roundrobin.RoundRobin (flattened)"]
     return h
 
-def c_ic(kind, nm, ns, register, rset):
-    masters = [wishbone.Interface(data_width=32, adr_width=30) for _ in range(nm)]
+def c_ic(kind, nm, ns, register, rset, madr=None):
+    """madr: address widths of the masters (default 30 each); a narrower master reaches only the low part of the map, the interconnect must
+    still route the wider masters by their FULL address"""
+    masters = [wishbone.Interface(data_width=32, adr_width=(madr[i] if madr else 30)) for i in range(nm)]
     slaves  = [wishbone.Interface(data_width=32, adr_width=30) for _ in range(ns)]
     regions = mk_regions(rset, ns)
     decs = [r.decoder(Bus) for r in regions]                                   # real SoCRegion.decoder
@@ -58,8 +60,9 @@ def c_ic(kind, nm, ns, register, rset):
     ins = []
     for m in masters: ins += m_inputs(m)
     for s in slaves: ins += s_inputs(s)
-    h = HwCheck(f"wishbone.{cls.__name__}({nm}x{ns},register={register},regions={rset})", d, ins)
+    h = HwCheck(f"wishbone.{cls.__name__}({nm}x{ns},register={register},regions={rset}{',madr=' + str(madr) if madr else ''})", d, ins)
     V = h.v
+    def mv(m, nme): return zx(V(m.adr), 30) if nme == "adr" else V(getattr(m, nme))
     for s in slaves: slave_legal(h, s)
     for i, m in enumerate(masters): master_holds(h, m, name=str(i))
     def sel_by(grant, sigs):
@@ -71,7 +74,7 @@ def c_ic(kind, nm, ns, register, rset):
     h.ensure("ens.decode-disjoint", z3.And(*[z3.Not(z3.And(match(regions[x], a), match(regions[y], a))) for x in range(ns) for y in range(x + 1, ns)]))
     if kind == "shared":
         grant = V(d.arbiter.rr.grant) if nm > 1 else K(0, 1)
-        g = lambda nme: sel_by(grant, [V(getattr(m, nme)) for m in masters])
+        g = lambda nme: sel_by(grant, [mv(m, nme) for m in masters])
         gcyc, gstb, gadr = g("cyc"), g("stb"), g("adr")
         if nm > 1: h.hint("grant<n", ult(grant, nm)); h.ensure("ens.grant-exists", ult(grant, nm))
         h.ensure("ens.mutex", z3.AtMost(*[b(V(s.cyc)) for s in slaves], 1))
@@ -105,7 +108,7 @@ def c_ic(kind, nm, ns, register, rset):
         assert len(arbs) == ns
         for j, s in enumerate(slaves):
             grant = V(arbs[j].rr.grant) if nm > 1 else K(0, 1)
-            g = lambda nme: sel_by(grant, [V(getattr(m, nme)) for m in masters])
+            g = lambda nme: sel_by(grant, [mv(m, nme) for m in masters])
             if nm > 1: h.hint(f"grant{j}<n", ult(grant, nm)); h.ensure(f"ens.grant-exists{j}", ult(grant, nm))
             # slave j is driven by exactly the master its arbiter designates, and sees cyc iff that master addresses its window
             h.ensure(f"ens.route{j}", b(V(s.cyc)) == z3.And(b(g("cyc")), match(regions[j], g("adr"))))
@@ -152,7 +155,11 @@ def c_decoder_window(sizes_exp, dw, origin_kind):
             for sz in sorted({size, size - (size >> 2) if size >= 8 * (dw // 8) else size}):       # non power-of-two size rounds up to the same window
                 r = SoCRegion(origin=origin, size=sz)
                 a = Signal(aw)
-                expr = r.decoder(B)(a)
+                try: expr = r.decoder(B)(a)
+                except Exception as e:           # an aligned region inside the address space must get a decoder: a refusal is reported, not a harness crash
+                    import sys
+                    if sys.stderr is None: sys.stderr = sys.__stderr__
+                    out.append(res(f"ens.window[origin={origin:#x},size={sz:#x},dw={dw}]", "ensures", VIOLATED, 0, "executed", info=f"SoCRegion(origin={origin:#x}, size={sz:#x}).decoder raised {type(e).__name__} although the origin is aligned on the decoded size {r.size_pow2:#x}")); continue
                 class Top(Module):
                     def __init__(self):
                         self.o = Signal(); self.a = a
@@ -217,6 +224,9 @@ def cases(tier):
             for k, (nm, ns) in enumerate(grid):
                 rset = "ABC"[k % 3]
                 cs.append(Case(f"{kind}({nm}x{ns},register={register},regions={rset})", c_ic, kind, nm, ns, register, rset))
+    for kind in ("shared", "crossbar"):         # masters of different address widths, the narrower one first
+        for register in (False, True):
+            cs.append(Case(f"{kind}(2x3,register={register},regions=B,madr=[14,30])", c_ic, kind, 2, 3, register, "B", [14, 30]))
     cs.append(Case("p2p", c_p2p))
     cs += [Case(f"SoCBusHandler.map({sc})", c_handler_map, sc) for sc in ("alloc", "explicit", "mixed")]
     cs += [Case(f"decoder(dw={dw},{ok})", c_decoder_window, [2, 3, 12, 16, 31] if tier == "quick" else list(range(2, 32)), dw, ok) for dw in (32, 64) for ok in ("zero", "mid", "top")]
